@@ -142,7 +142,7 @@ class RefModel:
 
 def generate(rng, tier):
     fmt = rng.choice(["bzr", "bzr", "git"])
-    spec = xformsim.gen_tree_spec(rng, 3, 7)
+    spec = xformsim.gen_tree_spec(rng, 3, 7, targets=xformsim.SAFE_SYMLINK_TARGETS)
     unversioned = []
     if rng.random() < 0.3 and not any(e[0] == "u1" for e in spec):
         unversioned = [["u1", "file", "unversioned\n", False]]
@@ -182,7 +182,7 @@ def generate(rng, tier):
         elif k == "new_directory":
             op = [k, m.fresh(), name, parent, rng.random() < 0.75]
         elif k == "new_symlink":
-            op = [k, m.fresh(), name, parent, rng.choice(["a", "nowhere"]), rng.random() < 0.75]
+            op = [k, m.fresh(), name, parent, rng.choice(xformsim.SAFE_SYMLINK_TARGETS), rng.random() < 0.75]
         elif k == "create_path":
             op = [k, m.fresh(), name, parent]
         elif k == "delete_contents":
@@ -386,6 +386,7 @@ def execute(sim, plan):
     tt = tree.transform()
     malformed = None
     crashed = None
+    preview_error = None
     moved = {}
     try:
         done = run_script(sim, tt, plan, fmt)
@@ -401,11 +402,23 @@ def execute(sim, plan):
             crashed = (e, resolver_in(e.__traceback__))
         if malformed is None and crashed is None:
             stage = "preview"
-            pt = tt.get_preview_tree()
-            pre_list = preview_listing(pt)
-            pre = tree_view(pt, pre_list, with_ids, vdirs)
-            pre_versioned = versioned_set(pt, with_ids, vdirs)
             moved = moved_unchanged(tt)
+            try:
+                pt = tt.get_preview_tree()
+                pre_list = preview_listing(pt)
+                pre = tree_view(pt, pre_list, with_ids, vdirs)
+                pre_versioned = versioned_set(pt, with_ids, vdirs)
+            except Hang:
+                raise
+            except Exception as e:  # noqa: BLE001 - the preview tree cannot even be listed
+                import traceback
+
+                fn = traceback.extract_tb(e.__traceback__)[-1].name
+                for fr in traceback.extract_tb(e.__traceback__):
+                    if fr.filename.endswith("transform.py"):
+                        fn = fr.name
+                preview_error = (fn, e)
+        if malformed is None and crashed is None and preview_error is None:
             stage = "apply"
             try:
                 tt.apply()
@@ -423,6 +436,11 @@ def execute(sim, plan):
             osseam.deactivate(sim)
     sim.nontrivial = done >= 3 and len(seen) >= 1
     sim.state_seen((tuple(sorted(set(seen))), malformed is not None))
+    if preview_error is not None:
+        fn, e = preview_error
+        sim.probe("preview_crash")
+        sim.event("outcome", "preview-crash", fn, type(e).__name__)
+        sim.fail("preview_equals_applied", ["preview_equals_applied", "none", f"{fmt}:preview-crash:{fn}:{type(e).__name__}"], f"the preview tree of a conflict-free transform cannot be read: {fn} raised {type(e).__name__}: {str(e).replace(base, '<scratch>')} [conflicts resolved: {sorted(set(seen))}]")
     if crashed is not None:
         e, where = crashed
         sim.probe("resolver_crash")
@@ -470,7 +488,10 @@ def execute(sim, plan):
                 continue
             text = f"{p!r} {f}: preview {a[i]!r} / applied {b[i]!r}"
             under_moved_dir = any(p.startswith(d + "/") for d, k in moved.items() if k == "directory")
-            if f == "contents" and str(a[i]).startswith("<unreadable") and p in moved:
+            if f == "contents" and str(a[i]).startswith("<unreadable") and a[2] is False and p not in moved:
+                # the preview cannot read a file the transform creates without versioning it
+                add(f"{fmt}:preview-read:unversioned-new", text)
+            elif f == "contents" and str(a[i]).startswith("<unreadable") and p in moved:
                 # known family: the preview looks a moved-but-unchanged entry up at its NEW path in the old tree
                 add(f"{fmt}:preview-read:moved-unchanged", text)
             elif f == "executable" and p in moved and a[i] is False and b[i] is True:
